@@ -24,6 +24,7 @@ type Val struct {
 	Idx  string
 	Ref  string // slices backed by the array heap: reference into Hs
 	Heap string // spec values: heap version to read from ("" = current)
+	Obj  string // value-form view of a heap object (buffer): the object's reference, for ref()
 	Fn   *ssa.Function
 	Bind []Val
 	Ty   types.Type
@@ -98,6 +99,7 @@ type Obl struct {
 	Goal  string
 	Line  int
 	Cover bool // must be SAT (vacuity guard) instead of UNSAT
+	Props []string // non-empty: counts only for these properties
 	// filled by the solver stage
 	Result string
 	Solver string
@@ -146,6 +148,10 @@ type Gen struct {
 	sideFailed  bool
 	modelVars   []string
 	specTypes   map[string]types.Type
+	freshErrs      []string
+	foreignErrList []string
+	globInit    map[string]Val
+	globFacts   map[string]string
 	refRange    map[string][2]string
 	constFacts  map[string]string // opaque string constant id -> length/byte facts
 	axioms      map[string]string // opaque spec function symbol -> definitional axiom
@@ -591,7 +597,7 @@ func (g *Gen) val(st *State, v ssa.Value) Val {
 		}
 		return Val{Kind: "ptr", Cell: x}
 	case *ssa.Global:
-		return Val{T: "glob_" + x.Name(), Kind: "globptr", Ty: x.Type()}
+		return Val{T: globKey(x), Kind: "globptr", Ty: x.Type()}
 	case *ssa.FreeVar:
 		fv, ok := st.fv[x]
 		if !ok {
